@@ -89,6 +89,13 @@ Proof.
 Qed.
 Print Assumptions c09_recognisers_shape.
 
+(* converse for call-contract programs: a recognised program IS the builder's output
+   04 "bcrp" 20 <32 bytes> for the 32-byte hash it carries *)
+Theorem c09_call_contract_shape : forall p,
+  is_call_contract p = true -> exists h, lenN h = 32 /\ p = call_contract_program h.
+Proof. exact is_call_contract_shape. Qed.
+Print Assumptions c09_call_contract_shape.
+
 (* ---- tie to the source: the name table of the model equals the table translated from
         protocol/vm/ops.go on this run (tools/optable -> VerifGen.OpTable), for all 256 bytes;
         the 256 printed names are pairwise distinct (so Assemble's lookup by name is unambiguous) ---- *)
